@@ -1091,6 +1091,14 @@ def q_tail_link(cfg):
                         continue
                     o, neg = f.strip_test(blk['cond'])
                     c = f.resolve(o)
+                    cm = f.strip_casts(o)
+                    if isinstance(cm, dict) and cm.get('k') == 'member' and cm.get('name') == 'next' and (f.ref_of(cm['base']) or (None,))[0] == pr[0]:
+                        # `while (P->next)`: the pointer itself as the condition; null on the false side
+                        succ_null = ss[1] if not neg else ss[0]
+                        if succ_null == b:
+                            reassigned = any(x.get('k') == 'binop' and x.get('op') == '=' and (f.ref_of(x['l']) or (None,))[0] == pr[0] for x in f.blocks[b]['elems'][:i])
+                            tail = tail or not reassigned
+                        continue
                     if not (isinstance(c, dict) and c.get('k') == 'binop' and c.get('op') in ('!=', '==')):
                         continue
                     cl, cr = f.strip_casts(c['l']), f.strip_casts(c['r'])
